@@ -14,11 +14,12 @@ res() { echo "RESULT $ID $*"; }
 if ! git apply --check "$SRC/patch.diff"; then res "patch-does-not-apply"; git -C /repo worktree remove --force "$WT"; exit 1; fi
 # pristine build + demo
 cmake -G Ninja -S . -B _build -DCMAKE_BUILD_TYPE=Release >/dev/null && cmake --build _build -j8 >/dev/null || { res "pristine-build-failed"; exit 1; }
-cp -r "$SRC" _demo
-( cd _demo && bash ./run.sh "$WT" ) >/tmp/confirm_$ID.pristine.txt 2>&1; P=$?
-git apply "$SRC/patch.diff"
+mkdir -p _seed_out && cp -r "$SRC" _seed_out/x
+export ROOT="$WT" LIBDIR="$WT/_build/lib" TREE="$WT"
+( cd _seed_out/x && bash ./run.sh "$WT" ) >/tmp/confirm_$ID.pristine.txt 2>&1; P=$?
+git apply "$SRC/patch.diff"; find lib -name "*.asm" -exec touch {} +   # ninja does not track nasm %include dependencies
 cmake --build _build -j8 >/dev/null || { res "mutant-build-failed"; git -C /repo worktree remove --force "$WT"; exit 1; }
-( cd _demo && bash ./run.sh "$WT" ) >/tmp/confirm_$ID.mutant.txt 2>&1; M=$?
+( cd _seed_out/x && bash ./run.sh "$WT" ) >/tmp/confirm_$ID.mutant.txt 2>&1; M=$?
 ctest --test-dir _build -j8 --timeout 1800 >/tmp/confirm_$ID.ctest.txt 2>&1; T=$?
 SUM=$(grep "tests passed" /tmp/confirm_$ID.ctest.txt | tail -1)
 res "demo_pristine_rc=$P demo_mutant_rc=$M ctest_rc=$T :: $SUM"
